@@ -71,8 +71,8 @@ def parse_events(evs):
     if evs == "-" or not evs:
         return out
     for item in evs.split(";"):
-        if not item:
-            continue
+        if not item or "@" not in item:
+            continue                      # "+N": entries beyond the log cap of the harness, counted only
         tag, rest = item.split("@", 1)
         f = rest.split(",")
         out.append((tag, f[0], f[1:]))
